@@ -498,6 +498,8 @@ def value_expr(path: Path, index: int, expr, depth: int = 12, keep_clock: bool =
                 ret = seen.data.get('ret')
                 if ret is None:
                     return None
+                if trace is not None:
+                    trace.append(pos)  # the helper computed its result at this position
                 return value_expr(path, pos, ret, depth - 1, keep_clock, keep,
                                   frame=(seen.data.get('ret_fid'), seen.data.get('ret_bind'),
                                          seen.data['callee'].fn), trace=trace)
@@ -550,7 +552,13 @@ def value_expr(path: Path, index: int, expr, depth: int = 12, keep_clock: bool =
                 return node  # a container filled in place: not its initial literal
             if trace is not None:
                 trace.append(pos)  # the value was read at this position
-            return value_expr(path, pos, value, depth - 1, keep_clock, keep, trace=trace)
+            result = value_expr(path, pos, value, depth - 1, keep_clock, keep, trace=trace)
+            if keep_clock and fn is not None and result is not value and (
+                    is_clock_call(result, store.fn) or (
+                        isinstance(result, (ast.Attribute, ast.Name))
+                        and is_current_time(result, store.fn))):
+                return node  # a clock read made elsewhere (a helper): still that local
+            return result
 
         def visit_Call(self, node):
             got = returned_by_helper(original.get(id(node)))
